@@ -675,7 +675,10 @@ class Emitter:
                 return eqb
         if ty[0] == "opt":
             inner = self.eqb_of(ty[1]) if ty[1][0] != "int" else "N.eqb"
-            return "(opt_eqb %s)" % inner
+            # optional vocabulary key `opt_eqb`: the area's name of #[derive(PartialEq)] of Option<T> over T's equality
+            return "(%s %s)" % (self.v.get("opt_eqb", "opt_eqb"), inner)
+        if ty == BOOL:
+            return "Bool.eqb"
         if ty[0] == "enum":
             return self.v["enums"][ty[1]]["eqb"]
         if ty[0] == "int":
@@ -966,14 +969,21 @@ class Emitter:
             if ty != UNIT:
                 vname = self.fresh("v")
                 names.append(vname)
+            # optional vocabulary key `total_joins: True` (see below); without it the historical spelling
+            tj = bool(self.v.get("total_joins"))
             for idx, (term, _t, benv) in enumerate(rec):
                 parts = [benv.vars[n].coq for n in changed]
                 if ty != UNIT:
                     parts.append(term)
-                leaf = "Some %s" % (self.tuple_of(parts) if parts else "tt")
+                leaf = "%s%s" % (self.J_SOME if tj else "Some ", self.tuple_of(parts) if parts else "tt")
                 code = code.replace("\x01J%d:%d\x01" % (jid, idx), leaf)
             pat = "_" if not names else (names[0] if len(names) == 1 else "'(%s)" % ", ".join(names))
-            return "%s <- (%s) ;;\n%s" % (pat, code, k(vname if vname else "tt", ty, envj))
+            if not tj:
+                return "%s <- (%s) ;;\n%s" % (pat, code, k(vname if vname else "tt", ty, envj))
+            # `total_joins`: the spelling of this bind (`pat <- (..) ;;` with `Some` leaves | `let pat := (..) in`
+            # with plain leaves) is decided at the end of emit_fn (`resolve_joins`): a join is the only construct
+            # that is monadic for FORM only, so a function whose every other step is total stays total
+            return "%s%s%s(%s)%s\n%s" % (self.J_LET, pat, self.J_BIND, code, self.J_IN, k(vname if vname else "tt", ty, envj))
         params = []
         envj = env.copy()
         for n in changed:
@@ -1416,7 +1426,8 @@ class Emitter:
     def pat_is_ctor_like(self, p, ty):
         k = p.kind
         if k in ("pwild", "pident"):
-            return p.kind == "pwild" or p.sub is None
+            # `name @ pattern` is native when the pattern is (Gallina `(pattern as name)`, coq_pattern)
+            return p.kind == "pwild" or p.sub is None or (not is_int(ty) and ty != UNKNOWN and self.pat_is_ctor_like(p.sub, ty))
         if k == "pref":
             return self.pat_is_ctor_like(p.inner, ty)
         if k == "ppath":
@@ -1496,10 +1507,14 @@ class Emitter:
                 # a later alternative of an or-pattern: the variable gets the name the first alternative gave it
                 if p.name not in pn:
                     raise EmitError("or-pattern: variable %s is not bound in every alternative" % p.name)
-                binds.append((p.name, pn[p.name], ty, p.mut))
-                return pn[p.name]
-            n = self.fresh(p.name)
+                n = pn[p.name]
+            else:
+                n = self.fresh(p.name)
             binds.append((p.name, n, ty, p.mut))
+            if getattr(p, "sub", None) is not None:
+                # `name @ pattern` (pat_is_ctor_like admits it when the pattern is native): `((pattern) as name)`
+                inner = self.coq_pattern(p.sub, ty, binds)
+                return "(%s as %s)" % ("(%s)" % inner if " | " in inner and not inner.startswith("(") else inner, n)
             return n
         if k == "pstruct":
             # `Enum::Variant { field, field: pat, .. }` of an enum with `struct_variants`
@@ -3168,7 +3183,14 @@ class Emitter:
         self.ctl = Ctl(finish)
         body = self.expr(fn.body, env, lambda t, ty, envx: finish(envx, t, ty))
         import re
-        total = not force_monadic and ("<-" not in body and not re.search(r"(?<![A-Za-z0-9_])None(?![A-Za-z0-9_])", self._strip_ret(body)))
+        # bind-style joins (join_branches) do not make a function monadic by themselves: the test is made on the
+        # body with their markers taken out, then they are spelled `let .. := .. in` (total) or `.. <- .. ;;`
+        probe = self.resolve_joins(body, None)
+        if self.v.get("total_joins"):
+            # `| None =>`, `| None, None =>`: an Option that is MATCHED on is no failure (pattern lines stand alone)
+            probe = re.sub(r"(?m)^[ \t]*\|[^\n]*=>[ \t]*$", "", probe)
+        total = not force_monadic and ("<-" not in probe and not re.search(r"(?<![A-Za-z0-9_])None(?![A-Za-z0-9_])", self._strip_ret(probe)))
+        body = self.resolve_joins(body, total)
         if total:
             body = re.sub(r"\x02RET\((.*?)\)\x02", lambda m: m.group(1), body, flags=re.S)
         else:
@@ -3190,6 +3212,22 @@ class Emitter:
             return text, shape
         text = "Definition %s %s : %s :=\n%s." % (shape["coq"], " ".join(binders), rty, ind(body))
         return text, shape
+
+    # markers of a bind-style join, resolved per function by resolve_joins
+    J_LET, J_BIND, J_IN, J_SOME = "\x03L\x03", "\x03B\x03", "\x03I\x03", "\x03S\x03"
+
+    def resolve_joins(self, body, total):
+        """total=None: drop the markers (for the totality test); True: `let pat := (code) in`, plain leaves;
+        False: `pat <- (code) ;;`, `Some` leaves (the historical spelling)"""
+        if total is None:
+            sub = ("", "", "", "")
+        elif total:
+            sub = ("let ", " := ", " in", "")
+        else:
+            sub = ("", " <- ", " ;;", "Some ")
+        for m, r in zip((self.J_LET, self.J_BIND, self.J_IN, self.J_SOME), sub):
+            body = body.replace(m, r)
+        return body
 
     @staticmethod
     def _strip_ret(body):
